@@ -154,7 +154,7 @@ pub fn aux_replay(case: &Value) -> Result<Vec<Viol>, String> {
     Ok(aux_eval(&c))
 }
 
-fn faults(m: &Model, valid: &[u8], other_seed: &[u8], other_params: &[u8], half: &[u8], th: bool, all_bits: bool) -> Vec<(String, Vec<u8>, bool)> {
+fn faults(m: &Model, valid: &[u8], other_seed: &[u8], other_params: &[u8], half: &[u8], half_other: &[u8], th: bool, all_bits: bool) -> Vec<(String, Vec<u8>, bool)> {
     // large buffers (H10 top tree: 43 KB): one flipped bit per 16 bytes of cached nodes, every length on a grid
     let big = valid.len() > 8000;
     let n = m.n();
@@ -207,6 +207,23 @@ fn faults(m: &Model, valid: &[u8], other_seed: &[u8], other_params: &[u8], half:
         f.push((format!("mac-cut-nodes-altered@{}", k), altered[..altered.len() - k].to_vec(), true));
         f.push((format!("mac-cut-other-seed@{}", k), other_seed[..other_seed.len() - k].to_vec(), true));
     }
+    // MAC field zeroed ('not sealed yet'): alone, with a cached node altered, and on the other seed's buffer
+    let mut zm = valid.to_vec();
+    let l = zm.len();
+    for x in zm[l - n..].iter_mut() {
+        *x = 0;
+    }
+    f.push(("mac-zeroed".into(), zm.clone(), true));
+    zm[4 + 2] ^= 0x04;
+    f.push(("mac-zeroed-nodes-altered".into(), zm, true));
+    let mut zo = other_seed.to_vec();
+    let lo = zo.len();
+    for x in zo[lo - n..].iter_mut() {
+        *x = 0;
+    }
+    f.push(("mac-zeroed-other-seed".into(), zo, true));
+    // what a sign call of ANOTHER key (other seed) leaves in a fresh buffer
+    f.push(("half-initialised-by-sign-of-other-seed".into(), half_other.to_vec(), true));
     // marker zeroed, rest valid
     let mut b = valid.to_vec();
     b[0] = 0;
@@ -300,6 +317,10 @@ pub fn run_c10(ctx: &Ctx) -> (&'static str, Map<String, Value>) {
         let key0 = m.make_blob(counters[0], params, &seed);
         let r = lib_api::sign(*hid, &key0, b"aux message", Cb::Accept, Some(&mut half), Entry::Bytes);
         half.truncate(r.aux_len.unwrap_or(half.len()).min(half.len()));
+        let mut half_other = vec![0u8; full + 3];
+        let key_other = m.make_blob(counters[0], params, &other);
+        let r2 = lib_api::sign(*hid, &key_other, b"aux message", Cb::Accept, Some(&mut half_other), Entry::Bytes);
+        half_other.truncate(r2.aux_len.unwrap_or(half_other.len()).min(half_other.len()));
         // keygen on fresh buffers of every interesting length: layout
         let mut fresh_lens: Vec<usize> = vec![1, 2, 3, 4, 5, hid.n() + 3, hid.n() + 4, hid.n() + 5, full - 1, full, full + 1, full + 100, 3 * full];
         // every length at which one more level fits
@@ -323,7 +344,7 @@ pub fn run_c10(ctx: &Ctx) -> (&'static str, Map<String, Value>) {
         // every bit: 4-leaf top trees always, SHA-256 single-level H5 in the thorough tier; otherwise one
         // (rotating) bit per byte of the cached nodes and every bit of level word and MAC
         let all_bits = h0 <= 2 || (th && !hid.shake() && params.len() == 1 && h0 <= 5);
-        for (name, buf, verdict) in faults(&m, &valid, &other_seed_buf, &other_params_buf, &half, th, all_bits) {
+        for (name, buf, verdict) in faults(&m, &valid, &other_seed_buf, &other_params_buf, &half, &half_other, th, all_bits) {
             all.push(AuxCase { hid: *hid, params: params.clone(), seed: hex::encode(&seed), counter: 0, aux: hex::encode(&buf), op: "keygen".into(), entry: Entry::Bytes, fault: name.clone(), verdict_on_equality: verdict, after_valid: false });
             // the fault happens AFTER the intact buffer was used in this process (nothing remembered from
             // that use may vouch for the altered buffer)
